@@ -41,12 +41,12 @@ UNIT = dict(
              sig="fn batch_read_io(ring: &mut RingR, plan: &Vec<ReadPlan>) -> (ret: IoResult<Vec<Vec<u8>>>)", post="Ok(temp_buffers)",
              rules=RULES + IOERR_RULES + PUSH_RULE,
              requires=[("", "!old(ring).submitted@ && old(ring).subs@.len() == 0"),
-                       ("", "forall|k: int| 0 <= k < plan@.len() ==> (#[trigger] plan@[k]).start <= plan@[k].end && plan@[k].end - plan@[k].start <= 0x4000_0000 && plan@[k].blk.offset + plan@[k].end <= 0x7fff_ffff_ffff")],
+                       ("", "forall|k: int| 0 <= k < plan@.len() ==> (#[trigger] plan@[k]).start <= plan@[k].end && plan@[k].end - plan@[k].start <= 0x4000_0000 && plan@[k].blk.offset + plan@[k].end <= 0x1_ffff_ffff_ffff")],
              ensures=[("C16,C01:the_io_uring_branch_returns_for_every_planned_range_exactly_the_bytes_of_that_range_of_that_blocks_file",
-                       "ret matches Ok(b) ==> b@.len() == plan@.len() && forall|k: int| 0 <= k < plan@.len() ==> (#[trigger] b@[k])@ == want_bytes(plan@[k])")],
+                       "ret matches Ok(b) ==> b@.len() == plan@.len() && forall|k: int| 0 <= k < plan@.len() ==> (#[trigger] b@[k])@ == want_bytes(plan@[k]) && plan@[k].blk.offset + plan@[k].end <= disk(plan@[k].blk.mmap.file).len()")],
              loops={
                  0: dict(kind="for", expect="read_op_new", n_loops=2, invariant=[
-                     ("", "forall|k: int| 0 <= k < plan@.len() ==> (#[trigger] plan@[k]).start <= plan@[k].end && plan@[k].end - plan@[k].start <= 0x4000_0000 && plan@[k].blk.offset + plan@[k].end <= 0x7fff_ffff_ffff"),
+                     ("", "forall|k: int| 0 <= k < plan@.len() ==> (#[trigger] plan@[k]).start <= plan@[k].end && plan@[k].end - plan@[k].start <= 0x4000_0000 && plan@[k].blk.offset + plan@[k].end <= 0x1_ffff_ffff_ffff"),
                      ("", "!ring.submitted@ && ring.subs@.len() == plan_idx && temp_buffers@.len() == plan@.len() && expected_sizes@.len() == plan@.len()"),
                      ("C16:each_read_is_submitted_on_the_descriptor_of_its_own_block_with_its_own_range", "forall|k: int| 0 <= k < plan_idx ==> (#[trigger] ring.subs@[k]).ud == k && ring.subs@[k].file == plan@[k].blk.mmap.file && ring.subs@[k].offset == plan@[k].blk.offset + plan@[k].start && ring.subs@[k].size == plan@[k].end - plan@[k].start && expected_sizes@[k] == ring.subs@[k].size && temp_buffers@[k]@.len() == ring.subs@[k].size"),
                  ]),
